@@ -1,6 +1,7 @@
 import Driver.Ops
 import Driver.VMDrv
 import Driver.Json
+import Driver.Sym
 open Driver
 
 def dispatch (line : String) : String :=
@@ -8,6 +9,8 @@ def dispatch (line : String) : String :=
   | "ops" :: args => handleOps args
   | "vm" :: args => handleVM args
   | "json" :: args => handleJson args
+  | "symops" :: args => handleSymops args
+  | "disable" :: args => handleDisable args
   | _ => "bad-op"
 
 partial def loop (h : IO.FS.Stream) (out : IO.FS.Stream) : IO Unit := do
